@@ -6,7 +6,7 @@ import concurrent.futures as cf, glob, json, os, shutil, subprocess, sys, tempfi
 VERIF = os.path.dirname(os.path.dirname(os.path.abspath(__file__)))
 props = [c["property_id"] for c in json.load(open(os.path.join(VERIF, "MANIFEST.json")))["checks"]]
 sel = [a.upper() for a in sys.argv[1:]]
-patches = sorted(p for p in glob.glob(os.path.join(VERIF, "benign", "*", "patch*.diff")) if not sel or os.path.basename(os.path.dirname(p)) in sel)
+patches = sorted(p for p in glob.glob(os.path.join(VERIF, os.environ.get("BENIGN_DIR", "benign"), "*", "patch*.diff")) if not sel or os.path.basename(os.path.dirname(p)) in sel)
 
 
 def run(patch):
